@@ -264,6 +264,8 @@ class Res:
     adj_terms: tuple = ()  # merged terms of the run of sorts that ends exactly here
     oterms: tuple = ()  # the terms the `ordered` promise rests on
     classes: tuple = ()
+    seq: bool = False  # `rows` is in the order of a total sort held by the same query level, although that order is not
+    # observable any more (a projection dropped a sort column): a slice still takes positions of that order (C11, first clause)
 
 
 def is_total(terms, rows):
@@ -312,7 +314,7 @@ def ev_bag(prog, leaves, marker_sort=None, memo=None, stats=None):
         rows = [{t: r[t] for t in prog[2]} for r in s.rows]
         need = frozenset().union(*[cols_e(e) for e, _ in s.oterms]) if s.oterms else frozenset()
         ordered = s.ordered and need <= keep
-        res = Res(rows, ordered, s.det, s.count, (), s.oterms if ordered else ())
+        res = Res(rows, ordered, s.det, s.count, (), s.oterms if ordered else (), seq=s.det and (s.ordered or s.seq))
     elif k == "dedup":
         s = sub()
         rows = dedup_rows(s.rows, False)
@@ -332,7 +334,11 @@ def ev_bag(prog, leaves, marker_sort=None, memo=None, stats=None):
             n = len(s.rows)
             w = _window(n, start, stop)
             if s.ordered:
-                res = Res(s.rows[start:stop], True, True, w, (), s.oterms)
+                res = Res(s.rows[start:stop], True, True, w, (), s.oterms, seq=True)
+            elif s.seq:
+                res = Res(s.rows[start:stop], False, True, w, seq=True)
+                if stats is not None:
+                    stats["slices_over_hidden_sort_column"] += 1
             elif w == n or w == 0 or all(row_key(r) == row_key(s.rows[0]) for r in s.rows):
                 res = Res(s.rows[start:stop], False, True, w)
             else:
